@@ -6,8 +6,9 @@ export CARGO_NET_OFFLINE=true
 mkdir -p work evidence replays
 [ -f harness/Cargo.lock ] || cp /repo/Cargo.lock harness/Cargo.lock
 python3 tools/gen_tables.py
-for m in spec/CodecTrace.tla spec/WireMC.tla spec/TlsTrace.tla spec/DriverMC.tla spec/StreamLifeMC.tla spec/C01Trace.tla spec/C02Trace.tla spec/C03Trace.tla spec/C04Trace.tla spec/C05Trace.tla spec/C06Trace.tla spec/C07Trace.tla spec/C08Trace.tla spec/C09Trace.tla spec/C10Trace.tla spec/C12Trace.tla spec/C16Trace.tla; do
+for m in spec/CodecTrace.tla spec/WireMC.tla spec/TlsTrace.tla spec/DriverMC.tla spec/DriverTrace.tla spec/SelectLoopMC.tla spec/AsyncReadMC.tla spec/StreamLifeMC.tla spec/C01Trace.tla spec/C02Trace.tla spec/C03Trace.tla spec/C04Trace.tla spec/C05Trace.tla spec/C06Trace.tla spec/C07Trace.tla spec/C08Trace.tla spec/C09Trace.tla spec/C10Trace.tla spec/C12Trace.tla spec/C16Trace.tla; do
   (cd spec && java -cp /opt/veriftools/tla/tla2tools.jar:/opt/veriftools/tla/CommunityModules-deps.jar tla2sany.SANY "$(basename $m)" >/dev/null) || { echo "SANY failed on $m"; exit 1; }
 done
-(cd harness && cargo build --offline --quiet && cargo build --offline --quiet --release)
+F=""; [ -f /repo/wtransport/src/driver/verif.rs ] && F="--features mech"
+(cd harness && cargo build --offline --quiet $F && cargo build --offline --quiet --release $F)
 echo setup-ok
